@@ -34,16 +34,16 @@ theorem waveforms_eq (wfs : List Mat) (inds : List (List Nat))
       ((wfs.getD t []).getD s []).getD ((inds.getD t []).getD j 0) 0 :=
   Lemmas.waveforms_eq wfs inds t s j hj
 
-/-- WHICH ids are blanked in `clusters.depths` / `clusters.peakToTrough`: exactly the ids below the number of clusters
-that NO SPIKE is assigned to — computed from the spike assignment, not a list handed in. -/
+/-- WHICH ids are blanked in `clusters.depths`: exactly the ids below the number of clusters that NO SPIKE is assigned
+to — computed from the spike assignment, not a list handed in. -/
 theorem spikeless_ids_spec (n : Nat) (sc : List Nat) (c : Nat) :
     c ∈ spikelessIds n sc ↔ c < n ∧ c ∉ sc :=
   Lemmas.mem_spikelessIds n sc c
 
 /-- … and for a curated dataset (`n_clusters` = highest id + 1, C13 `cluster_count_rule`) that list IS the model's
 `nan_idx` (C08 `nanIdx` of the merge map, characterised by C08 `nanIdx_spec`): the composition with C08.  For an
-un-curated dataset `model.nan_idx` is `[]` (model.py:425) whatever the templates without spikes — the export must not
-(and, repaired, does not) take its list from there. -/
+un-curated dataset `model.nan_idx` is `[]` (model.py:425) whatever the templates without spikes — `make_depths` must
+not (and, repaired, does not) take its list from there. -/
 theorem blanked_ids_eq_nanIdx (st sc : List Nat) (hlen : st.length = sc.length) :
     spikelessIds (sc.foldl max 0 + 1) sc = C08.nanIdx (C08.mergeMap st sc) :=
   Lemmas.spikelessIds_eq_nanIdx st sc hlen
@@ -150,19 +150,23 @@ theorem spike_depth_features_eq (f : Feats) (ys : List Rat) (peaks st sc : List 
 
 -- `hr`: the domain (a sampling rate); the equation does not need it
 set_option linter.unusedVariables false in
-/-- `clusters.peakToTrough[c]` in MILLISECONDS: NaN EXACTLY for the ids without spikes (curated or not), else
-`(iM − im) · 1000 / rate` for THE peak channel `p` of the cluster waveform and THE first arg-max `iM` / arg-min `im`
-along time on it (direct formula of C09 `duration_ms_spec`; objects exist by C09 `duration_objects_exist`); one entry
-per cluster. -/
-theorem peakToTrough_eq (wfs : List Mat) (rate : Rat) (hr : 0 < rate) (sc : List Nat) (ns nc : Nat)
+/-- `clusters.peakToTrough[c]` in MILLISECONDS: `(iM − im) · 1000 / rate` for THE peak channel `p` of the cluster
+waveform and THE first arg-max `iM` / arg-min `im` along time on it (direct formula of C09 `duration_ms_spec`; objects
+exist by C09 `duration_objects_exist`); one entry per cluster.  NaN exactly for the ids without spikes of a CURATED
+dataset (`model.nan_idx`, the C08 model, composed through C08 `nanIdx_spec`; their cluster waveform is all zero).  When
+nothing was curated every template — also one without spikes — has the duration of its own waveform: the statement
+attaches its NaN clause to depths, and upstream `test_alf.py::test_creator` pins a number there.  `hn`: a curated
+dataset has one cluster per id up to the highest (C13 `cluster_count_rule`). -/
+theorem peakToTrough_eq (wfs : List Mat) (rate : Rat) (hr : 0 < rate) (st sc : List Nat)
+    (hlen : st.length = sc.length) (hn : sc ≠ st → wfs.length = sc.foldl max 0 + 1) (ns nc : Nat)
     (hns : 0 < ns) (hnc : 0 < nc) (hrect : ∀ W ∈ wfs, Rect W ns nc) (c : Nat) (hc : c < wfs.length)
     (p iM im : Nat) (hp : IsPeakChannel (wfs.getD c []) nc p) (hM : IsFirstMax (chan (wfs.getD c []) p) iM)
     (hm : IsFirstMin (chan (wfs.getD c []) p) im) :
-    (exportDurations wfs rate sc).getD c none =
-      (if c ∈ sc then some ((((iM : Int) - (im : Int) : Int) : Rat) * 1000 / rate) else none) ∧
-    (exportDurations wfs rate sc).length = wfs.length :=
-  ⟨Lemmas.durations_eq wfs rate sc ns nc hns hnc hrect c hc p iM im hp hM hm,
-   Lemmas.exportDurations_length wfs rate sc⟩
+    (exportDurations wfs rate st sc).getD c none =
+      (if sc ≠ st ∧ c ∉ sc then none else some ((((iM : Int) - (im : Int) : Int) : Rat) * 1000 / rate)) ∧
+    (exportDurations wfs rate st sc).length = wfs.length :=
+  ⟨Lemmas.durations_eq wfs rate st sc hlen hn ns nc hns hnc hrect c hc p iM im hp hM hm,
+   Lemmas.exportDurations_length wfs rate st sc⟩
 
 /-- "Peak channel FIRST", literally: when no other channel sits at the peak channel's position (the loader replaces
 non-distinct positions, model.py:390-393, so every exported dataset satisfies this) and at least one channel is
@@ -238,9 +242,16 @@ example : (exportSpikeDepths (some ⟨[[1, 1], [-1, 1], [-1, 0]], [[0, 1], [0, 1
     [0, 2, 1]).length = 3 :=
   (spike_depth_features_eq ⟨[[1, 1], [-1, 1], [-1, 0]], [[0, 1], [0, 1], [1, 2]]⟩ [10, 20, 40] [2, 0, 1] [0, 2, 1]
     [0, 2, 1] (by decide) 0 (by decide)).2
+-- curated (ids 0..2, id 1 without spikes): NaN; nothing curated (template 2 without spikes): the template's own duration
+example : exportDurations [[[1, 0, 4], [-1, 2, 0], [3, 1, 2]], [[0, 0, 0], [0, 0, 0], [0, 0, 0]],
+    [[0, 0, 1], [0, 5, 0], [0, -1, 0]]] 30000 [0, 0, 1] [0, 2, 2] = [some (1/30), none, some (-1/30)] := by
+  have h : modelNanIdx [0, 0, 1] [0, 2, 2] = [1] := by decide
+  unfold exportDurations; rw [h]; decide +kernel
 example : exportDurations [[[1, 0, 4], [-1, 2, 0], [3, 1, 2]], [[0, 0, 1], [0, 5, 0], [0, -1, 0]],
-    [[0, 0, 0], [0, 0, 0], [0, 0, 0]]] 30000 [0, 1, 1] = [some (1/30), some (-1/30), none] := by decide +kernel
-example : (exportDurations [[[1, 0, 4], [-1, 2, 0], [3, 1, 2]]] 30000 [0, 0]).getD 0 none =
+    [[0, 1, 0], [0, 0, 0], [0, -1, 0]]] 30000 [0, 1, 1] [0, 1, 1] = [some (1/30), some (-1/30), some (-1/15)] := by
+  have h : modelNanIdx [0, 1, 1] [0, 1, 1] = [] := by decide
+  unfold exportDurations; rw [h]; decide +kernel
+example : (exportDurations [[[1, 0, 4], [-1, 2, 0], [3, 1, 2]]] 30000 [0, 0] [0, 0]).getD 0 none =
     some (((((2 : Nat) : Int) - ((1 : Nat) : Int) : Int) : Rat) * 1000 / 30000) := by
   have hp : IsPeakChannel ([[[1, 0, 4], [-1, 2, 0], [3, 1, 2]]].getD 0 []) 3 0 := by
     have h := (C09.Lemmas.peakChannels_spec [[[1, 0, 4], [-1, 2, 0], [3, 1, 2]]] 0 3 3 (by decide) ⟨by decide, by decide⟩
@@ -248,7 +259,8 @@ example : (exportDurations [[[1, 0, 4], [-1, 2, 0], [3, 1, 2]]] 30000 [0, 0]).ge
     rwa [show (peakChannels [[[1, 0, 4], [-1, 2, 0], [3, 1, 2]]]).getD 0 0 = 0 by decide +kernel] at h
   have hM : IsFirstMax (chan ([[[1, 0, 4], [-1, 2, 0], [3, 1, 2]]].getD 0 []) 0) 2 := by unfold IsFirstMax; decide +kernel
   have hm : IsFirstMin (chan ([[[1, 0, 4], [-1, 2, 0], [3, 1, 2]]].getD 0 []) 0) 1 := by unfold IsFirstMin; decide +kernel
-  rw [(peakToTrough_eq _ 30000 (by decide +kernel) [0, 0] 3 3 (by decide) (by decide) (by decide) 0 (by decide) 0 2 1 hp hM hm).1]
+  rw [(peakToTrough_eq _ 30000 (by decide +kernel) [0, 0] [0, 0] (by decide) (by decide) 3 3 (by decide) (by decide)
+    (by decide) 0 (by decide) 0 2 1 hp hM hm).1]
   decide +kernel
 end Instances
 
